@@ -1,6 +1,7 @@
 mod c02;
 mod c04;
 mod c05;
+mod c07;
 mod schema;
 mod uni;
 mod c08;
@@ -41,6 +42,7 @@ fn checks_for(property: &str, tier: Tier) -> Vec<Box<dyn Check>> {
         | "C16" => c16::checks(tier),
         | "C18" => vec![Box::new(c18::Lowered::new(c18::Mode::Lowering, tier))],
         | "C19" => vec![Box::new(c18::Lowered::new(c18::Mode::Preservation, tier))],
+        | "C07" => c07::checks(tier),
         | "C08" => {
             let mut v = c08::checks(tier);
             v.push(Box::new(c08lang::Blocks::new(tier)));
